@@ -28,7 +28,8 @@ def stratified(rnd: random.Random, w: int, n: int) -> list[int]:
     for i in range(w):
         out.add(1 << i)
         out.add(((1 << w) - 1) ^ (1 << i))
-    while len(out) < n + 2 * w + 8:
+    target = min(n + 2 * w + 8, 1 << w)  # never ask for more distinct values than exist
+    while len(out) < target:
         k = rnd.choice([1, 2, 3, w // 2, w - 1, w])
         v = 0
         for _ in range(max(1, k)):
